@@ -396,6 +396,13 @@ def run(repo: Repo, chk: Check) -> None:
         bounds = (lo, hi)
         if lo is None or hi is None or lo < Y1000 or hi > Y9999_END:
             guarded = False
+    # both optimized modes write the integer: `legacy_optimized` is the mode big_map key hashes and PACK use, a text there changes every hash
+    for mode_ in ('optimized', 'legacy_optimized'):
+        rm = Interp(repo, _TsHooks(repo, q), max_depth=4).run_method(tm, lambda mode_=mode_: (Obj(q, {'value': Sym('ts', 'int')}), [], {'mode': mode_}))
+        kinds = sorted({kind_of(p.value) if p.outcome == 'return' else p.outcome for p in rm})
+        chk.ob('R-DISPATCH', tm.qualname, kinds == ['int'], f'timestamp in mode {mode_} is written as an int literal', tm.loc, {'renderings': kinds},
+               what=f'a timestamp is rendered as {kinds} in mode {mode_}; Tezos packs / hashes timestamps as integers: PACK and the key hash of a big_map with timestamp '
+                    'keys differ from the chain')
     chk.ob('R-EXC', tm.qualname, bool(partial) and guarded, 'datetime rendering only for timestamps of the years 1000-9999', tm.loc,
            {'partial_calls': len(partial), 'guard_bounds': bounds, 'needed': [Y1000, Y9999_END]},
            what='readable rendering calls datetime.fromtimestamp on an unbounded integer: timestamps beyond year 9999 (or before year 1) raise, years 1-999 render '
